@@ -226,3 +226,195 @@ pub fn all_vtrees(n: usize) -> Vec<VT> {
     }
     out
 }
+
+// ---------------------------------------------------------------------------------------------
+// logical expressions (no constants), independent of rsdd's types
+
+#[derive(Clone, Debug, PartialEq, Eq, Hash)]
+pub enum Ex {
+    Var(usize),
+    Not(Box<Ex>),
+    And(Box<Ex>, Box<Ex>),
+    Or(Box<Ex>, Box<Ex>),
+    Iff(Box<Ex>, Box<Ex>),
+    Xor(Box<Ex>, Box<Ex>),
+    Ite(Box<Ex>, Box<Ex>, Box<Ex>),
+}
+
+pub const NAMES: [&str; 6] = ["A", "B", "C", "D", "E", "F"];
+
+impl Ex {
+    /// variables occurring (as a bit mask over the name alphabet)
+    pub fn var_mask(&self) -> u32 {
+        match self {
+            Ex::Var(v) => 1 << v,
+            Ex::Not(a) => a.var_mask(),
+            Ex::And(a, b) | Ex::Or(a, b) | Ex::Iff(a, b) | Ex::Xor(a, b) => a.var_mask() | b.var_mask(),
+            Ex::Ite(a, b, c) => a.var_mask() | b.var_mask() | c.var_mask(),
+        }
+    }
+    /// occurring name indices in lexicographic order = the documented variable numbering
+    pub fn vars(&self) -> Vec<usize> {
+        let m = self.var_mask();
+        (0..32).filter(|v| (m >> v) & 1 == 1).collect()
+    }
+    /// truth table over the occurring variables, numbered lexicographically by name
+    pub fn tt(&self) -> (crate::tt::TT, usize) {
+        let vars = self.vars();
+        let n = vars.len();
+        let mut idx = vec![usize::MAX; 32];
+        for (i, v) in vars.iter().enumerate() {
+            idx[*v] = i;
+        }
+        (self.tt_with(&idx, n), n)
+    }
+    pub fn tt_with(&self, idx: &[usize], n: usize) -> crate::tt::TT {
+        use crate::tt;
+        match self {
+            Ex::Var(v) => tt::var(idx[*v], n),
+            Ex::Not(a) => tt::not(a.tt_with(idx, n), n),
+            Ex::And(a, b) => a.tt_with(idx, n) & b.tt_with(idx, n),
+            Ex::Or(a, b) => a.tt_with(idx, n) | b.tt_with(idx, n),
+            Ex::Iff(a, b) => tt::iff(a.tt_with(idx, n), b.tt_with(idx, n), n),
+            Ex::Xor(a, b) => a.tt_with(idx, n) ^ b.tt_with(idx, n),
+            Ex::Ite(a, b, c) => tt::ite(a.tt_with(idx, n), b.tt_with(idx, n), c.tt_with(idx, n), n),
+        }
+    }
+    /// s-expression text as accepted by serde_sexpr for LogicalSExpr
+    pub fn sexpr(&self) -> String {
+        match self {
+            Ex::Var(v) => format!("(Var {})", NAMES[*v]),
+            Ex::Not(a) => format!("(Not {})", a.sexpr()),
+            Ex::And(a, b) => format!("(And {} {})", a.sexpr(), b.sexpr()),
+            Ex::Or(a, b) => format!("(Or {} {})", a.sexpr(), b.sexpr()),
+            Ex::Iff(a, b) => format!("(Iff {} {})", a.sexpr(), b.sexpr()),
+            Ex::Xor(a, b) => format!("(Xor {} {})", a.sexpr(), b.sexpr()),
+            Ex::Ite(a, b, c) => format!("(Ite {} {} {})", a.sexpr(), b.sexpr(), c.sexpr()),
+        }
+    }
+    /// rsdd's LogicalExpr with the given variable indices (built node by node, incl. `Not`)
+    pub fn to_logical(&self, idx: &[usize]) -> rsdd::repr::LogicalExpr {
+        use rsdd::repr::LogicalExpr as L;
+        match self {
+            Ex::Var(v) => L::Literal(idx[*v], true),
+            Ex::Not(a) => match a.as_ref() {
+                Ex::Var(v) => L::Literal(idx[*v], false),
+                _ => L::Not(Box::new(a.to_logical(idx))),
+            },
+            Ex::And(a, b) => L::And(Box::new(a.to_logical(idx)), Box::new(b.to_logical(idx))),
+            Ex::Or(a, b) => L::Or(Box::new(a.to_logical(idx)), Box::new(b.to_logical(idx))),
+            Ex::Iff(a, b) => L::Iff(Box::new(a.to_logical(idx)), Box::new(b.to_logical(idx))),
+            Ex::Xor(a, b) => L::Xor(Box::new(a.to_logical(idx)), Box::new(b.to_logical(idx))),
+            Ex::Ite(a, b, c) => L::Ite {
+                guard: Box::new(a.to_logical(idx)),
+                thn: Box::new(b.to_logical(idx)),
+                els: Box::new(c.to_logical(idx)),
+            },
+        }
+    }
+    pub fn parse(s: &str) -> Option<Ex> {
+        fn toks(s: &str) -> Vec<String> {
+            s.replace('(', " ( ").replace(')', " ) ").split_whitespace().map(|x| x.to_string()).collect()
+        }
+        fn p(t: &[String], i: &mut usize) -> Option<Ex> {
+            if t.get(*i)? != "(" {
+                return None;
+            }
+            *i += 1;
+            let head = t.get(*i)?.clone();
+            *i += 1;
+            let r = match head.as_str() {
+                "Var" => {
+                    let name = t.get(*i)?;
+                    *i += 1;
+                    Ex::Var(NAMES.iter().position(|n| n == name)?)
+                }
+                "Not" => Ex::Not(Box::new(p(t, i)?)),
+                "Ite" => {
+                    let a = p(t, i)?;
+                    let b = p(t, i)?;
+                    let c = p(t, i)?;
+                    Ex::Ite(Box::new(a), Box::new(b), Box::new(c))
+                }
+                h => {
+                    let a = p(t, i)?;
+                    let b = p(t, i)?;
+                    match h {
+                        "And" => Ex::And(Box::new(a), Box::new(b)),
+                        "Or" => Ex::Or(Box::new(a), Box::new(b)),
+                        "Iff" => Ex::Iff(Box::new(a), Box::new(b)),
+                        "Xor" => Ex::Xor(Box::new(a), Box::new(b)),
+                        _ => return None,
+                    }
+                }
+            };
+            if t.get(*i)? != ")" {
+                return None;
+            }
+            *i += 1;
+            Some(r)
+        }
+        p(&toks(s), &mut 0)
+    }
+}
+
+/// all expression trees with exactly `size` connectives over `nvars` names
+pub fn exprs_of_size(size: usize, nvars: usize, memo: &mut Vec<Vec<Ex>>) -> Vec<Ex> {
+    if let Some(v) = memo.get(size) {
+        if !v.is_empty() {
+            return v.clone();
+        }
+    }
+    let out: Vec<Ex> = if size == 0 {
+        (0..nvars).map(Ex::Var).collect()
+    } else {
+        let mut out = Vec::new();
+        for a in exprs_of_size(size - 1, nvars, memo) {
+            out.push(Ex::Not(Box::new(a)));
+        }
+        for sa in 0..size {
+            let sb = size - 1 - sa;
+            let la = exprs_of_size(sa, nvars, memo);
+            let lb = exprs_of_size(sb, nvars, memo);
+            for a in la.iter() {
+                for b in lb.iter() {
+                    out.push(Ex::And(Box::new(a.clone()), Box::new(b.clone())));
+                    out.push(Ex::Or(Box::new(a.clone()), Box::new(b.clone())));
+                    out.push(Ex::Iff(Box::new(a.clone()), Box::new(b.clone())));
+                    out.push(Ex::Xor(Box::new(a.clone()), Box::new(b.clone())));
+                }
+            }
+        }
+        for sa in 0..size {
+            for sb in 0..(size - sa) {
+                let sc = size - 1 - sa - sb;
+                let la = exprs_of_size(sa, nvars, memo);
+                let lb = exprs_of_size(sb, nvars, memo);
+                let lc = exprs_of_size(sc, nvars, memo);
+                for a in la.iter() {
+                    for b in lb.iter() {
+                        for c in lc.iter() {
+                            out.push(Ex::Ite(Box::new(a.clone()), Box::new(b.clone()), Box::new(c.clone())));
+                        }
+                    }
+                }
+            }
+        }
+        out
+    };
+    while memo.len() <= size {
+        memo.push(Vec::new());
+    }
+    memo[size] = out.clone();
+    out
+}
+
+/// all expressions with at most `max` connectives, smallest first
+pub fn exprs_up_to(max: usize, nvars: usize) -> Vec<Ex> {
+    let mut memo = Vec::new();
+    let mut out = Vec::new();
+    for s in 0..=max {
+        out.extend(exprs_of_size(s, nvars, &mut memo));
+    }
+    out
+}
